@@ -39,7 +39,8 @@ RULE = ('cases = (record, container, implementation | dt) calls of the real func
         'extreme at the first/last sample, sign change at the last step, small signal on a large offset, micro 1e-12..1e-9 '
         'and macro 1e9..1e12 amplitudes, monotone ramps, one-sided negative records, Nyquist-frequency energy on top of noise, '
         'tail-heavy (exact zeros then action in the last 1/8), a constant with one changed sample, one sample 1e3..1e12 times '
-        'the rest; extreme-scale classes also as float32; thorough: twice) plus lengths around every power of two up to 1024 and random '
+        'the rest; extreme-scale classes also as float32; every sixth case through gen.special_scale: uniformly 1e-165..1e-300 '
+        'or 1e155..1e300, 1e-150 vs 1e150 inside one record, ripple on a large baseline, counts above 2**24; thorough: twice) plus lengths around every power of two up to 1024 and random '
         'lengths; containers float64/float32/int64/int32/int16/int8/uint8/uint16 (values filling the dtype range), lists and '
         'tuples of floats / ints / mixed, strided, reversed and read-only views. Each case passes ONE argument object to both '
         'implementations (positional / keyword / interp=False forms), inverts one result and feeds the other to the '
@@ -48,7 +49,7 @@ RULE = ('cases = (record, container, implementation | dt) calls of the real func
         'linear combination (every second case). Sinusoid part: EVERY on-grid harmonic 2 <= k <= 0.75 N/2 for N in '
         '{16,32,64,100,128} (thorough: 16 values of N up to 1000) and harmonics {2, k_max, random} for EVERY even N in 16..260 '
         '(thorough: 16..520) -- each N also as the odd length N+1 -- plus one harmonic for 29 sampled N in 280..1024 (quick) / '
-        'EVERY even N in 522..1024 (thorough) and an odd partner; random phase, amplitude 1 or 10^U(-12,12); float64 / float32 / '
+        'EVERY even N in 522..1024 (thorough) and an odd partner; random phase, amplitude 1, 10^U(-12,12), 10^U(155,295) or 10^-U(165,295); float64 / float32 / '
         'list / strided / read-only records; each sinusoid is transformed, inverted and driven through '
         'get_max_stockwell_freq(AccSignal(record, dt)) and get_max_tifq_vals_freq(transform or a derived form, dt) for 2..8 dt '
         'per record (nice decimals and the 1/k floor-trap list cycled against the lengths, 1/k for random k <= 1000, '
@@ -85,9 +86,11 @@ ASSUMPTIONS = ['real, finite records of length 4..1024 (complex input, scalars, 
                '(combine_at_angle, interp_to_approx_dt, Cluster, deepcopy) must be the transform of the values the object has '
                'at call entry (clause asig.swtf==transform(values)) and the trace is judged against the reference of those values',
                'range of validity of the tolerances: every bound is relative to a scale computed from the record (sum|x| per '
-               'cell and per row sum, N*max|x| for the inverse, relative frequency error), so it holds for amplitudes 1e-12..1e12 '
-               'in float64 and float32 (far from the subnormal / overflow range of either dtype) and is multiplied by '
-               'eps32/eps64 for float32 records; the per-cell bound is GLOBAL (relative to sum|x| of the whole record, as in '
+               'cell and per row sum, N*max|x| for the inverse, relative frequency error; no absolute floor anywhere), so it '
+               'holds for float64 amplitudes 1e-300..1e300 (the transform, its inverse and the trace are linear / scale free; '
+               'N*N*max|x| < 1.8e308 keeps every intermediate sum finite for N <= 1024; below 1e-290 individual products go '
+               'subnormal with an absolute error 5e-324, far below 1e-12*sum|x|) and for float32 records within 1e-30..1e30, '
+               'multiplied by eps32/eps64; the per-cell bound is GLOBAL (relative to sum|x| of the whole record, as in '
                'DESIGN (d)): with one sample 1e3..1e12 times larger than the rest an FFT-based transform cannot be more '
                'accurate than eps*|spike| anywhere, so no local scale is demanded',
                'oracle vf/oracles/stransform.py is correct (vectorised direct sums, cross-checked in every run against the '
@@ -207,7 +210,9 @@ def derive(s, how):
     if how == 'abs':
         return np.abs(s)
     if how == 'abs32':
-        return np.abs(s).astype(np.float32)
+        a = np.abs(s)
+        m = float(np.max(a)) if a.size else 0.0
+        return a.astype(np.float32) if 1e-30 < m < 1e30 else a      # extreme scales are not representable in float32
     if how == 'abs-readonly':
         t = np.abs(s)
         t.flags.writeable = False
@@ -1178,14 +1183,27 @@ def sinusoid(rng, length, k, amp=None):
     ph = rng.uniform(0, 2 * np.pi)
     if amp is None:
         r = rng.random()
-        amp = 1.0 if r < 0.3 else (10.0 ** rng.uniform(-2, 2) if r < 0.5 else 10.0 ** rng.uniform(-12, 12))
+        if r < 0.25:
+            amp = 1.0
+        elif r < 0.4:
+            amp = 10.0 ** rng.uniform(-2, 2)
+        elif r < 0.8:
+            amp = 10.0 ** rng.uniform(-12, 12)
+        elif r < 0.9:      # extreme but valid: every sample a finite double, squares / products of two of them overflow ...
+            amp = 10.0 ** rng.uniform(155, 295)
+        else:              # ... or underflow
+            amp = 10.0 ** (-rng.uniform(165, 295))
     j = np.arange(length)
     return amp * np.sin(2 * np.pi * ((j * k) % n_pts) / n_pts + ph)
 
 
 def sinusoid_container(rng, x, sel):
-    """The sinusoid in one of the container forms (float32 loses nothing the statement needs; ints would quantise)."""
+    """The sinusoid in one of the container forms (float32 loses nothing the statement needs; ints would quantise);
+    extreme scales stay in float64 / list containers (they are not representable in float32)."""
     sel = sel % 10
+    m = float(np.max(np.abs(x)))
+    if sel == 4 and not (1e-30 < m < 1e30):
+        sel = 5
     if sel < 4:
         return x
     if sel == 4:
@@ -1411,7 +1429,11 @@ def run_item(ctx, eqsig, rng, idx, item):
         cls = CLASSES_A[c % len(CLASSES_A)]
         x = make_record(rng, n, cls)
         cont, ck = to_container(rng, x, idx + c // len(CLASSES_A))
-        if cls in EXTREME_SCALE and idx % 4 == 0:       # (15) float32 x extreme scale / dynamic range, every run
+        if idx % 6 == 1:      # numerically special but valid scales (wave 5): float64 / list containers only
+            x, suffix = gen.special_scale(rng, x)
+            cls += suffix
+            cont, ck = (x, 'f64') if idx % 12 == 1 else ([float(v) for v in x], 'list')
+        elif cls in EXTREME_SCALE and idx % 4 == 0:       # (15) float32 x extreme scale / dynamic range, every run
             cont, ck = x.astype(np.float32), 'f32'
         dt = draw_dts(rng, idx, 8, 2 * (n // 2))[idx % 8]
         rec = np.array(cont)
@@ -1422,8 +1444,8 @@ def run_item(ctx, eqsig, rng, idx, item):
         drive_record(ctx, eqsig, cont, dt, idx)
         ycls = ['noise', 'quake', 'walk', 'chirp'][int(rng.integers(4))]
         y, _ = gen.record(rng, n, cls=ycls)
-        if idx % 3 == 0:
-            y = y * float(np.max(np.abs(rec.astype(float))) or 1.0)      # same scale as the first record
+        if idx % 3 == 0 or idx % 12 == 1:
+            y = y / float(np.max(np.abs(y)) or 1.0) * float(np.max(np.abs(rec.astype(float))) or 1.0)   # scale of the first record
         drive_back_to_back(ctx, eqsig, cont, y, dt, TIFQ_FORMS[idx % len(TIFQ_FORMS)])
         # linearity on float64 records: every second case up to length 64, every case above
         if n <= 64 and c % 2 == 0 or n > 64:
